@@ -47,11 +47,11 @@ CHECKS = {
 
 CHECKS.update({
  "C01": dict(level="exploration", engine="E4-sys", technique="exhaustive enumeration of placements x routing views x entry nodes x addressings on real proxy servers; Gray-code walk over every placement on a real gossiping cluster",
-   text="On three real proxy servers with every placement of upstreams of two endpoints, five routing-view policies, every entry node and 18 addressings (incl. an endpoint differing only in case) no request is ever answered by an upstream of another endpoint; on a real 3-node cluster with real client listeners, after settling, every entry node serves the endpoint iff an upstream exists (else 502), for all 64 placements, also with requests in flight during each change; after a listener stops accepting with Close() (connection kept) requests entering at every node end up at the listener that is still there.",
-   note="Schedules inside net/http, gorilla and yamux are free-running; lock-level interleavings of Select/AddConn/RemoveConn are enumerated by C15/C20.", ref="3 C01, 2.4"),
+   text="On three real proxy servers with every placement of upstreams of two endpoints, five routing-view policies, every entry node and 21 addressings (incl. an endpoint differing only in case, and the endpoint header declared hop-by-hop by the client) no request is ever answered by an upstream of another endpoint; on a real 3-node cluster with real client listeners, after settling, every entry node serves the endpoint iff an upstream exists (else 502), for all 64 placements, also with requests in flight during each change; after a listener stops accepting with Close() (connection kept) requests entering at every node end up at the listener that is still there.",
+   note="Schedules inside net/http, gorilla and yamux are free-running; lock-level interleavings of Select/AddConn/RemoveConn are enumerated by C15/C20. Finding D7 repaired by a fix: commit.", ref="3 C01, 2.4"),
  "C06": dict(level="fault_enumeration", engine="E4-sys", technique="exhaustive enumeration of all belief matrices x placements x entry x route x forwarded flag on real proxy servers, hop count from accepted connections; plus preemption-bounded exhaustive schedule exploration of Select against connect/disconnect (scheduler pass)",
-   text="For all 2^6 per-node belief matrices, all 3^3 placements (none / healthy / go-away upstream per node), every entry node, HTTP and TCP routes, x-piko-forward sent by the client absent/true/false (31104 cases; thorough also 2 and 4 nodes) a request crosses at most one inter-node hop, a local upstream is always used, an already forwarded request is never forwarded again, and the outcome is 200 from an upstream of the endpoint or 502.",
-   note="Hops are counted as connections accepted by the proxies (no keep-alive on either side). Scheduler pass: programs A and F, every schedule up to 2 (3) preemptions: Select never returns the local node as forwarding target and never forwards an already-forwarded request.", ref="3 C06, 2.2"),
+   text="For all 2^6 per-node belief matrices, all 3^3 placements (none / healthy / go-away upstream per node), every entry node, HTTP and TCP routes, x-piko-forward sent by the client absent/true/false, with and without the client declaring that header hop-by-hop (46656 cases; thorough also 2 and 4 nodes) a request crosses at most one inter-node hop, a local upstream is always used, an already forwarded request is never forwarded again, and the outcome is 200 from an upstream of the endpoint or 502.",
+   note="Hops are counted as connections accepted by the proxies (no keep-alive on either side). Scheduler pass: programs A and F, every schedule up to 2 (3) preemptions: Select never returns the local node as forwarding target and never forwards an already-forwarded request. Finding D7 repaired by a fix: commit.", ref="3 C06, 2.2"),
  "C07": dict(level="exploration", engine="E3-seq + E4-sys", technique="exhaustive grid of message compositions x empty messages x read-buffer patterns x transport fragmentation on the real WebSocket adapter; enumerated tunnel paths x sizes x closer on real nodes",
    text="Every composition of an n-byte payload into WebSocket messages with up to two empty messages, 8 read-buffer patterns and 4 transport read limits is delivered exactly once and in order by the real adapter (never a (0,nil) read, close frame => error); 5 real tunnel paths x 4 sizes x empty write x closer deliver bytes intact and propagate close, releasing the upstream stream; the same paths on a TLS cluster; one long-lived tunnel per path (plaintext and TLS cluster) used for 6.5s never sees an end-of-stream neither side caused.",
    note="Adapter half is deterministic and exhaustive in its grid; tunnel half is free-running.", ref="3 C07"),
@@ -108,7 +108,7 @@ def main():
         ],
         "checks": checks,
         "not_applicable": na,
-        "notes": "fix: commits in /repo repair findings D1 (C05), D2 (C17), D3 (C08), D4 (C18), D6 (C13); known_findings.json lists recorded findings F1-F3 and the fixed entries.",
+        "notes": "fix: commits in /repo repair findings D1 (C05), D2 (C17), D3 (C08), D4 (C18), D6 (C13), D7 (C06, C01); known_findings.json lists recorded findings F1-F3 and the fixed entries.",
     }
     json.dump(m, open(os.path.join(ROOT, "MANIFEST.json"), "w"), indent=1)
     print("wrote MANIFEST.json with %d checks, %d not claimed" % (len(checks), len(na)))
